@@ -14,7 +14,7 @@ EXPLANATION = (
     'get_or_create_keyspace is performed under a write guard under which an absence test on the same table was made, with no await '
     '(Yield) between the guard\'s acquisition and the insert, the insert lying only on the absent edge and the present edge returning '
     'the existing entry; A2 the keyspace\'s change-stamp cell is registered on the absent edge of the same test without an await after '
-    'the table guard was taken (a loser must not overwrite the winner\'s cell); A3 the unconditional bulk loader is reachable only from '
+    'the table guard was taken (a loser must not overwrite the winner\'s cell); A5 the store registers its RPC services and starts its tasks only after the rebuild from storage succeeded (the loader inserts unconditionally: an instance created by a request served during the load would be replaced); A3 the unconditional bulk loader is reachable only from '
     'store creation, not from request paths.')
 ASSUMPTIONS = ['parking_lot RwLock write guards are exclusive', 'a task is only descheduled at an await (Yield) point']
 
@@ -267,6 +267,11 @@ def check(ctx):
         ctx.floor('C18.A2', 'change-stamp cell inserts reachable from get_or_create_keyspace', n_ts, 1)
         ctx.floor('C18.A4', 'returns of the function that inserts into the keyspace table', n_ret, 1)
 
+    # ---- A5: the unconditional loader has finished before anything that can create a keyspace is served (= C07.R3) --------------
+    # load_states inserts without looking: an instance created by a request that was served during the load is replaced, and the write
+    # it accepted is missing from the set peers repair against (round 6, C18f: service registration moved above the load)
+    import c07
+    c07.check_R3(ctx, facts, rule='C18.A5')
     # ---- A3 -------------------------------------------------------------------------
     allowed = {KG + '::load_states_from_storage'}
     callers = cg.callers_of(lambda n, t: n == KG + '::load_states')
